@@ -79,7 +79,7 @@ DOCTYPES = ["<!DOCTYPE x SYSTEM \"a\">", "<!DOCTYPE html SYSTEM '\"a'>", "<!DOCT
             "<!DOCTYPE html PUBLIC \"-//W3C//DTD HTML 4.01 Frameset//EN\">", "<!DOCTYPE html PUBLIC \"-/W3C/DTD HTML 4.0 Transitional/EN\">",
             "<!DOCTYPE html PUBLIC \"-//w3c//dtd html 4.0 transitional//en\">"]
 CDATA = ["<![CDATA[x]]>", "<![CDATA[a]]]>", "<![CDATA[<p>]]>", "<![CDATA[", "<![CDATA[\x00]]>", "<![cdata[x]]>", "<![CDATA[a]]b]]>"]
-JUNK = ["<", "</", "<a", "<a b=\"", "<a b='x", "<a b", "<a b=", "<a /", "</a ", "<a/b=c>", "<a =b>", "< a>", "<a\x00b>", "<3",
+JUNK = ["<input type=hidden>", "<input type=HIDDEN>", "<p><b></p></b>", "<table><input type=hidden>", "<", "</", "<a", "<a b=\"", "<a b='x", "<a b", "<a b=", "<a /", "</a ", "<a/b=c>", "<a =b>", "< a>", "<a\x00b>", "<3",
         "</3>", "<a b=c d>", "<a b=\"c\"d>", "<a b=c/>", "<p/>", "<br/>", "<svg/>", "<a a=1 a=2>"]
 
 
